@@ -1,6 +1,6 @@
 """C10 -- each node's math/text mode is the one implied by the enclosing structure."""
 import itertools
-from .. import soups, px, contexts, docgrammar
+from .. import soups, px, contexts, docgrammar, monitor
 from ..alphabets import MATH9
 from ..engine import exc_key, exc_detail, ddmin, Result, hyp_run
 from ..models import mathmini
@@ -388,16 +388,91 @@ def plan(tier, seed):
     shards = [('str', L, k) for k in range(NSHARDS)]
     shards += [('docs', ndocs // NSHARDS, seed * 1000 + k) for k in range(NSHARDS)]
     shards += [('tables',)]
+    shards += [('delims', 3 if tier == 'quick' else 4, k) for k in range(NSHARDS)]
     return {'shards': shards, 'bounds': {'string_len': L, 'alphabet': MATH9, 'documents': ndocs,
                                          'document_depth': 5},
             'required_classes': ['str:both-accept', 'str:both-reject', 'dollar-run',
                                  'non-trivial:string', 'non-trivial:nested-modes', 'doc:parsed',
                                  'table:math-environment',
                                  'table:mode-switching-macro',
-                                 'scoping:switch-inside-construct']}
+                                 'scoping:switch-inside-construct',
+                                 'delims:formula-under-restricted-lists',
+                                 'delims:derived-state']}
+
+
+_INL = [('$', '$'), ('\\(', '\\)')]
+_DSP = [('$$', '$$'), ('\\[', '\\]')]
+
+
+def check_restricted_delims(L, k, res):
+    """parses started in a state whose math-delimiter lists were restricted -- built in one go,
+    or derived from the default state by one / two sub_context() calls (also down to the empty
+    list): a formula node exists only for a pair the state declares, with the display type of
+    the list the pair is in, and its children record that formula's mode"""
+    configs = [(inl, dsp) for inl in ([], _INL[:1], _INL[1:], _INL)
+               for dsp in ([], _DSP[:1], _DSP[1:], _DSP)]
+    for toks in soups.enum_tokens(MATH9, L, k, NSHARDS, minlen=2):
+        if not any(t in ('$', '\\(', '\\[') for t in toks):
+            continue
+        for inl, dsp in configs:
+            for how in ('fresh', 'derived-1', 'derived-2'):
+                check_delims_one(toks, inl, dsp, how, res)
+
+
+def check_delims_one(toks, inl, dsp, how, res):
+    from pylatexenc.latexnodes.parsers import LatexGeneralNodesParser
+    PE = px.parse_error_class()
+    res.case()
+    s = ''.join(toks)
+    inl = [tuple(x) for x in inl]
+    dsp = [tuple(x) for x in dsp]
+    case = {'kind': 'delims', 'tokens': list(toks), 'inline': [list(x) for x in inl],
+            'display': [list(x) for x in dsp], 'how': how}
+    w = px.walker(s, ctx('default'), False)
+    kw = dict(latex_inline_math_delimiters=list(inl), latex_display_math_delimiters=list(dsp))
+    try:
+        if how == 'fresh':
+            ps = w.make_parsing_state(**kw)
+        elif how == 'derived-1':
+            ps = w.make_parsing_state().sub_context(**kw)
+        else:
+            ps = w.make_parsing_state().sub_context(
+                latex_inline_math_delimiters=kw['latex_inline_math_delimiters']
+            ).sub_context(latex_display_math_delimiters=kw['latex_display_math_delimiters'])
+        with monitor.budget(len(s)):
+            nl, _ = w.parse_content(LatexGeneralNodesParser(), parsing_state=ps)
+    except PE:
+        return
+    except Exception as e:
+        res.fail(exc_key(e), exc_detail(e) + ' on %r' % (case,), case)
+        return
+    if how != 'fresh':
+        res.label('delims:derived-state')
+    for n in walk(nl):
+        if kind(n) != 'math':
+            continue
+        res.label('delims:formula-under-restricted-lists')
+        pair = tuple(n.delimiters)
+        declared = (pair in inl and n.displaytype == 'inline') or \
+            (pair in dsp and n.displaytype == 'display')
+        if not declared:
+            res.fail('c10:formula-for-undeclared-delimiter',
+                     '%r (%s state, inline %r, display %r): %s formula with delimiters %r'
+                     % (s, how, inl, dsp, n.displaytype, pair), case)
+            return
+        bad = [c for c in n.nodelist if c is not None and node_mode(c) != (True, pair[0])]
+        if bad:
+            res.fail('c10:formula-child-mode',
+                     '%r (%s state): child of formula %r records mode %r'
+                     % (s, how, pair, node_mode(bad[0])), case)
+            return
 
 
 def run_shard(shard, res):
+    if shard[0] == 'delims':
+        check_restricted_delims(shard[1], shard[2], res)
+        res.exhaustive = True
+        return
     if shard[0] == 'tables':
         check_tables(res)
         check_scoping(res)
@@ -423,14 +498,16 @@ def check_case(case, res):
                     res.fail(key, f['detail'], case)
         res.case()
         return
-    if case['kind'] == 'str':
+    if case['kind'] == 'delims':
+        check_delims_one(case['tokens'], case['inline'], case['display'], case['how'], res)
+    elif case['kind'] == 'str':
         check_string(case['tokens'], res)
     else:
         check_doc(case['sig'], case['ast'], res)
 
 
 def minimise(case, key):
-    if case['kind'] in ('table', 'scoping'):
+    if case['kind'] in ('table', 'scoping', 'delims'):
         return case
     if case['kind'] == 'str':
         def pred(t):
